@@ -358,7 +358,7 @@ func blockContainerLayout(context *layoutContext, box_ Box, bottomSpace pr.Float
 		newChildren, allFootnotes []Box
 		nextPage                  = tree.PageBreak{Break: "any"}
 		resumeAt                  tree.ResumeStack
-		brokenOutOfFlow           = make(map[Box]brokenBox)
+		brokenOutOfFlow           = newBrokenBoxes()
 		lastInFlowChild           Box
 	)
 
@@ -394,7 +394,7 @@ func blockContainerLayout(context *layoutContext, box_ Box, bottomSpace pr.Float
 			stop, resumeAt, newChild, outOfFlowResumeAt = outOfFlowLayout(context, box_, index, child_,
 				&newChildren, pageIsEmpty, absoluteBoxes, fixedBoxes, *adjoiningMargins, bottomSpace)
 			if outOfFlowResumeAt != nil {
-				brokenOutOfFlow[newChild] = brokenBox{child_, box_, outOfFlowResumeAt}
+				brokenOutOfFlow.set(newChild, brokenBox{child_, box_, outOfFlowResumeAt})
 			}
 		} else if childLineBox, ok := child_.(*bo.LineBox); ok { // LineBox is a final type
 			abort, stop, resumeAt, positionY, newChildren, newFootnotes, maxLines = lineBoxLayout(context, box_, index, childLineBox,
@@ -485,8 +485,8 @@ func blockContainerLayout(context *layoutContext, box_ Box, bottomSpace pr.Float
 		return nil, blockLayout{nextPage: tree.PageBreak{Break: "any"}}, maxLines
 	}
 
-	for k, v := range brokenOutOfFlow {
-		context.brokenOutOfFlow[k] = v
+	for _, k := range brokenOutOfFlow.keys {
+		context.brokenOutOfFlow.set(k, brokenOutOfFlow.values[k])
 	}
 
 	if collapsingWithChildren {
@@ -1250,7 +1250,7 @@ func removePlaceholders(context *layoutContext, boxList []Box, absoluteBoxes, fi
 		if box.Footnote != nil {
 			context.unlayoutFootnote(box.Footnote)
 		}
-		delete(context.brokenOutOfFlow, box_)
+		context.brokenOutOfFlow.delete(box_)
 	}
 }
 
